@@ -237,6 +237,26 @@ EXTRA10 = {
  "C20": " Round 10: EdgeTessellator has no mutable state.",
 }
 
+# sentences appended after the eleventh round (DESIGN.md section 9.10)
+EXTRA11 = {
+ "C01": " Round 11: no latitude of a cell centre is taken as asin of a coordinate.",
+ "C02": " Round 11: stableSign declines when its error bound underflowed (D50 repaired).",
+ "C03": " Round 11: stableSign declines when its error bound underflowed (D50 repaired).",
+ "C04": " Round 11: Polygon.iteratorContainsPoint does not walk its clipped edges as a vertex chain; ContainsPoint of the antipode of the reference origin is a known finding (D61).",
+ "C05": " Round 11: replaceCellsWithAncestor searches with >= RangeMin and normalizeCovering recomputes with the caller's parameters (D53, D54 repaired).",
+ "C06": " Round 11: Polygon.iteratorContainsPoint does not walk its clipped edges as a vertex chain; D61 is a known finding here too.",
+ "C07": " Round 11: Polygon.Contains reads its argument's bound through RectBound (D52 repaired).",
+ "C08": " Round 11: the conservative limits end in Successor / Predecessor (D51 repaired).",
+ "C09": " Round 11: the cell-centre test distinguishes signed zeros, the CellUnion encoder enforces the decoder's limit, the zero Polygon's bound is empty (D45-D47 repaired).",
+ "C10": " Round 11: Rect.CapBound pads its pole cap and grows its centre cap to all four vertices (D48 repaired); the zero Polygon's bound is empty (D47).",
+ "C15": " Round 11: Rect.decode validates and the vertex decoders test for unit length (D57, D58 repaired).",
+ "C16": " Round 11: PreciseVector.Vector scales before converting, the stable method declines on a denormal norm (D55, D56 repaired); the hemisphere test for nearly 180 degree edges is a known finding (D60).",
+ "C17": " Round 11: nothing beats a non-positive limit in updateEdgePairMinDistance (D49 repaired).",
+ "C18": " Round 11: the twin comparison of the two surface integrals prints expressions completely.",
+ "C19": " Round 11: Cap.Union's missing outward rounding is a known finding (D62).",
+ "C20": " Round 11: the tessellator's unbounded recursion (Mercator near the poles) is a known finding (D59).",
+}
+
 PENDING = "check for this property is designed (DESIGN.md section 4) but not yet built in this revision; no claim is made"
 
 def main():
@@ -253,7 +273,7 @@ def main():
                 "evidence_file": f"/verif/evidence/{p}.json",
                 "replay_cmd_template": f"/verif/bin/s2lint -prop {p} -tier thorough -v   # re-derives the obligations listed in {{path}}",
                 "engine": "s2lint",
-                "level_claimed": {"category": "other", "text": c["text"] + EXTRA.get(p, "") + EXTRA6.get(p, "") + EXTRA7.get(p, "") + EXTRA8.get(p, "") + EXTRA9.get(p, "") + EXTRA10.get(p, ""), "design_ref": c["design"] + ", sections 9.1-9.9"},
+                "level_claimed": {"category": "other", "text": c["text"] + EXTRA.get(p, "") + EXTRA6.get(p, "") + EXTRA7.get(p, "") + EXTRA8.get(p, "") + EXTRA9.get(p, "") + EXTRA10.get(p, "") + EXTRA11.get(p, ""), "design_ref": c["design"] + ", sections 9.1-9.10"},
                 "level_note": c["note"],
                 "technique": c["technique"],
             })
